@@ -13,7 +13,7 @@ use std::path::Path;
 /// Bytes of model disk. 16 pages of 256 bytes.
 pub const CAP: usize = 4096;
 /// Maximum number of logged operations (exceeding it is an assertion: outside the bound).
-pub const MAXOPS: usize = 12;
+pub const MAXOPS: usize = 16;
 
 pub const OP_WRITE: u8 = 1;
 pub const OP_SYNC: u8 = 2;
@@ -221,6 +221,7 @@ impl Write for File {
             if d.short_len > 0 && d.short_len < n {
                 // short write now, error on the next call
                 n = d.short_len;
+                d.short_len = 0; // once: the next call is the one that fails
                 d.nfailed -= 1;
                 if d.fail_at == d.ncalls - 1 {
                     d.fail_at = d.ncalls;
